@@ -11,10 +11,10 @@ import (
 
 func init() {
 	register(&ruleSet{
-		id:         "C05",
-		title:      "operator results for every combination of operand kinds",
-		run:        runC05,
-		decided:    "which Go operation, on which operands in which order, under which guard, each operator arm of the evaluator performs (operator table extracted per operator tag with a may-set analysis over the tag tests and compared, as normalised dataflow, with the documented table): dispatch is exhaustive for every operator tag the parser can put on a node; comparisons map to Compare(left, right) ⊙ 0 with the unset special case; arithmetic uses the numeric coercions in (left, right) order, + concatenates string forms when either operand is a string; the divide-by-zero guards test the (truncated) divisor only and dominate the division; && and || evaluate the right operand only on the documented edge and yield booleans; `is` type names map to the matching tags; ~ / !~ compile the right operand's text and match the left operand's string form; the coercion tables isTruthy / asFloat64 / String / Compare." +
+		id:    "C05",
+		title: "operator results for every combination of operand kinds",
+		run:   runC05,
+		decided: "which Go operation, on which operands in which order, under which guard, each operator arm of the evaluator performs (operator table extracted per operator tag with a may-set analysis over the tag tests and compared, as normalised dataflow, with the documented table): dispatch is exhaustive for every operator tag the parser can put on a node; comparisons map to Compare(left, right) ⊙ 0 with the unset special case; arithmetic uses the numeric coercions in (left, right) order, + concatenates string forms when either operand is a string; the divide-by-zero guards test the (truncated) divisor only and dominate the division; && and || evaluate the right operand only on the documented edge and yield booleans; `is` type names map to the matching tags; ~ / !~ compile the right operand's text and match the left operand's string form; the coercion tables isTruthy / asFloat64 / String / Compare." +
 			" Every operand is the result of evalExpr on the node's own child, left before right; a value that went through copyValue keeps its kind and payload.",
 		notDecided: "IEEE results, strings.Compare and RE2 semantics (trusted libraries), i.e. the numerical table itself.",
 	})
@@ -460,44 +460,68 @@ func c05Is(c *Ctx, eb *ssa.Function) {
 	p := c.P
 	c.note("R6 is-table: type-name strings map to the value tags whose printed names (stringer -linecomment of ValueTag) they are: string, bool, number, array, object, regex, unknown; keyword forms function -> ValueFn, null -> ValueNil; the tested value is the left operand's tag.")
 	want := map[string]string{"string": "ValueStr", "bool": "ValueBool", "number": "ValueNum", "array": "ValueArray", "object": "ValueObj", "regex": "ValueRegex", "unknown": "ValueUnknown"}
-	F := FactsOf(eb)
 	got := map[string]string{}
 	found := false
-	allInstrs(eb, func(in ssa.Instruction) {
-		phi, ok := in.(*ssa.Phi)
-		if !ok || found {
-			return
+	// the switch sits in evalBinaryExpr or in a helper split off it that is handed the left operand
+	type isScope struct {
+		fn   *ssa.Function
+		left string // how the left operand's cell is spelled there
+	}
+	scopes := []isScope{{eb, ""}}
+	for _, call := range callsIn(eb) {
+		g := call.Common().StaticCallee()
+		if g == nil || g == eb || !p.inClusterOf(eb, g) {
+			continue
 		}
-		isBool := false
-		if bt, ok := phi.Type().Underlying().(interface{ Kind() int }); ok {
-			_ = bt
-		}
-		if phi.Type().String() == "bool" {
-			isBool = true
-		}
-		if !isBool {
-			return
-		}
-		tmp := map[string]string{}
-		for i, e := range phi.Edges {
-			r := abbrevBinary(p.Render(e))
-			if !strings.HasPrefix(r, "(L.Value.Tag == ") {
-				continue
+		args := call.Common().Args
+		for i, a := range args {
+			if abbrevBinary(p.Render(a)) == "L" && i < len(g.Params) {
+				scopes = append(scopes, isScope{g, p.Render(g.Params[i])})
 			}
-			tag := strings.TrimSuffix(strings.TrimPrefix(r, "(L.Value.Tag == "), ")")
-			for _, rl := range F.OnEdge(phi.Block().Preds[i], phi.Block()).Rels() {
-				if rl.op == relEQ {
-					if s, ok := constString(rl.y); ok {
-						tmp[s] = tag
+		}
+	}
+	for _, sc := range scopes {
+		sc := sc
+		F := FactsOf(sc.fn)
+		allInstrs(sc.fn, func(in ssa.Instruction) {
+			phi, ok := in.(*ssa.Phi)
+			if !ok || found {
+				return
+			}
+			isBool := false
+			if bt, ok := phi.Type().Underlying().(interface{ Kind() int }); ok {
+				_ = bt
+			}
+			if phi.Type().String() == "bool" {
+				isBool = true
+			}
+			if !isBool {
+				return
+			}
+			tmp := map[string]string{}
+			for i, e := range phi.Edges {
+				r := abbrevBinary(p.Render(e))
+				if sc.left != "" && strings.HasPrefix(r, "("+sc.left+".Value.Tag == ") {
+					r = "(L" + strings.TrimPrefix(r, "("+sc.left)
+				}
+				if !strings.HasPrefix(r, "(L.Value.Tag == ") {
+					continue
+				}
+				tag := strings.TrimSuffix(strings.TrimPrefix(r, "(L.Value.Tag == "), ")")
+				for _, rl := range F.OnEdge(phi.Block().Preds[i], phi.Block()).Rels() {
+					if rl.op == relEQ {
+						if s, ok := constString(rl.y); ok {
+							tmp[s] = tag
+						}
 					}
 				}
 			}
-		}
-		if len(tmp) >= 3 {
-			got = tmp
-			found = true
-		}
-	})
+			if len(tmp) >= 3 {
+				got = tmp
+				found = true
+			}
+		})
+	}
 	if !found {
 		c.undecided("R6", "is-table", p.Pos(eb.Pos()), "the type-name switch of the `is` arm was not found")
 	} else {
@@ -934,10 +958,20 @@ func operandEvaluation(c *Ctx, eb, eu *ssa.Function) {
 	// no other source of operand cells: calls in evalBinaryExpr that return *Cell and are not
 	// evalExpr(child) / evalAssignment / GetMember / NewCell
 	allowed := map[string]bool{"(*lang.Evaluator).evalExpr": true, "(*lang.Evaluator).evalAssignment": true, "(*lang.Value).GetMember": true, "lang.NewCell": true}
+	// (helpers split off the two evaluators are part of them)
+	var scope []*ssa.Function
 	for _, fn := range []*ssa.Function{eb, eu} {
+		for _, g := range p.privateCluster(fn) {
+			scope = append(scope, g)
+		}
+	}
+	for _, fn := range scope {
 		for _, call := range callsIn(fn) {
 			f := call.Common().StaticCallee()
 			if f == nil || !p.InModule(f) {
+				continue
+			}
+			if f != eb && f != eu && (p.inClusterOf(eb, f) || p.inClusterOf(eu, f)) {
 				continue
 			}
 			res := f.Signature.Results()
